@@ -258,7 +258,49 @@ func runC02(res *Result, rng *RNG, tier string, outDir string) {
 		cs.add(sc, obs1)
 		cs.add(sc2, obs2)
 	}
+	c02CaptureWitness(res)
 	cs.write(res, outDir, "Cases_C02.v")
+}
+
+// c02CaptureWitness: the pre-repair finding F9 — an authority block issued over a custom
+// base table, read with the default table, re-bound by a symbol that an appended block declares.
+func c02CaptureWitness(res *Result) {
+	_, priv := rootKeys()
+	pub, _ := rootKeys()
+	base := datalog.SymbolTable{"corp_admin"}
+	b := biscuit.NewBuilder(priv, biscuit.WithSymbols(&base))
+	b.AddAuthorityFact(biscuit.Fact{Predicate: biscuit.Predicate{Name: "role", IDs: []biscuit.Term{biscuit.String("corp_admin")}}})
+	t0, err := b.Build()
+	if err != nil {
+		fatal("capture witness build: %v", err)
+	}
+	bs, _ := t0.Serialize()
+	rep := map[string]interface{}{"token": fmt.Sprintf("%x", bs), "scenario": "authority role(#1024) issued over base table [corp_admin]; verifier uses the default table; holder appends a block whose first new symbol is \"corp_admin\"; policy allow if role(\"corp_admin\")"}
+	res.Count("capture-witness", true)
+	tok, err := biscuit.Unmarshal(bs)
+	if err != nil {
+		res.Dist("capture-witness:rejected-at-unmarshal")
+		return // repaired behaviour: the dangling reference is refused
+	}
+	verdict := func(t *biscuit.Biscuit) error {
+		a, err := t.AuthorizerFor(biscuit.WithSingularRootPublicKey(pub), biscuit.WithWorldOptions(datalog.WithMaxDuration(20*time.Second)))
+		if err != nil {
+			return err
+		}
+		a.AddPolicy(biscuit.Policy{Kind: biscuit.PolicyKindAllow, Queries: []biscuit.Rule{{Head: biscuit.Predicate{Name: "q"}, Body: []biscuit.Predicate{{Name: "role", IDs: []biscuit.Term{biscuit.String("corp_admin")}}}}}})
+		return a.Authorize()
+	}
+	e1 := verdict(tok)
+	bb := tok.CreateBlock()
+	bb.AddFact(biscuit.Fact{Predicate: biscuit.Predicate{Name: "note", IDs: []biscuit.Term{biscuit.String("corp_admin")}}})
+	t2, err := tok.Append(detReader{NewRNG(5)}, bb.Build())
+	if err != nil {
+		return
+	}
+	e2 := verdict(t2)
+	if e1 != nil && e2 == nil {
+		res.Violate("dangling-symbol-capture", "an appended block re-binds a dangling symbol of the authority block: T refused ("+e1.Error()+"), T+B authorized", rep)
+	}
 }
 
 func sigsOfScenario(sc azScenario) []predSig {
